@@ -1419,7 +1419,12 @@ fn decide(
             // approve
             let pend: Vec<(&String, &ShadowAsk)> = view.asks.iter().filter(|(_, a)| a.state == "pending").collect();
             let mutate = r.chance(prof.p_mutate);
-            let (id, size) = if !pend.is_empty() && !(mutate && r.chance(0.3)) {
+            let ready: Vec<(&String, &ShadowAsk)> = view.asks.iter().filter(|(_, a)| a.state == "ready").collect();
+            let (id, size) = if !ready.is_empty() && r.chance(0.12) {
+                // somebody tries to approve an ask that is approved already
+                let (id, a) = *r.pick(&ready);
+                (id.clone(), a.remaining)
+            } else if !pend.is_empty() && !(mutate && r.chance(0.3)) {
                 let (id, a) = *r.pick(&pend);
                 (id.clone(), a.remaining)
             } else if !view.asks.is_empty() {
